@@ -680,39 +680,81 @@ func (w *World) newToks() []string {
 	return out
 }
 
-// Inject sends arbitrary bytes from the peer and records whatever comes back (C01).
+// Inject sends arbitrary bytes from the peer, followed by a valid Heartbeat Request that doubles as a barrier: the
+// agent handles the datagrams of one peer in order, so everything that arrives before the answer to the
+// heartbeat is the answer to the injected datagram. Two lines are recorded: the injection and the heartbeat (C01).
 func (w *World) Inject(peer, what string, raw []byte) []pfcpx.Dgram {
 	p := w.Peer(peer)
 	p.Drain()
 
 	before := w.EventCount("conn.shutdown.done", p.LocalAddr())
 	_ = p.SendRaw(raw)
-	p.WaitN(1, 25*time.Millisecond)
-	w.settle(p, true, 3*time.Millisecond)
 
-	ds := p.Drain()
-
-	for _, d := range ds {
-		// the datagram was (still) a valid Association Release Request: the teardown runs after the response;
-		// a datagram sent into the closing socket would be lost, so wait for its end like the Release step does
-		if d.TypeNum == int(message.MsgTypeAssociationReleaseResponse) {
-			if !w.WaitEventCount("conn.shutdown.done", p.LocalAddr(), before+1, 400*time.Millisecond) {
-				time.Sleep(40 * time.Millisecond)
+	if p.WaitN(1, 15*time.Millisecond) {
+		for _, d := range p.Peek() {
+			// the datagram was (still) a valid Association Release Request: the teardown runs after the response;
+			// a datagram sent into the closing socket would be lost, so wait for its end like the Release step does
+			if d.TypeNum == int(message.MsgTypeAssociationReleaseResponse) {
+				if !w.WaitEventCount("conn.shutdown.done", p.LocalAddr(), before+1, 400*time.Millisecond) {
+					time.Sleep(40 * time.Millisecond)
+				}
 			}
 		}
 	}
 
-	resps := []map[string]interface{}{}
+	seq := p.NextSeq()
+	_ = p.Send(message.NewHeartbeatRequest(seq, ie.NewRecoveryTimeStamp(p.TS), nil))
 
-	for _, d := range ds {
-		resps = append(resps, w.respJSON(d))
+	deadline := time.Now().Add(w.RespWait)
+	barrier := -1
+
+	for barrier < 0 && time.Now().Before(deadline) {
+		for i, d := range p.Peek() {
+			if d.TypeNum == int(message.MsgTypeHeartbeatResponse) && d.Seq == seq {
+				barrier = i
+			}
+		}
+
+		if barrier < 0 {
+			if w.Agent != nil && !w.Agent.Alive() {
+				break
+			}
+
+			time.Sleep(300 * time.Microsecond)
+		}
+	}
+
+	w.settle(p, true, 2*time.Millisecond)
+
+	all := p.Drain()
+
+	var ds, hb []pfcpx.Dgram
+
+	for i, d := range all {
+		if barrier >= 0 && i >= barrier {
+			hb = append(hb, d)
+		} else {
+			ds = append(ds, d)
+		}
+	}
+
+	proj := func(xs []pfcpx.Dgram) []map[string]interface{} {
+		out := []map[string]interface{}{}
+		for _, d := range xs {
+			out = append(out, w.respJSON(d))
+		}
+
+		return out
 	}
 
 	toks := w.newToks()
 	t := w.Bess.Snapshot()
+	dp := w.dpJSON()
 	w.collectMarkers(time.Time{})
-	w.emit(map[string]interface{}{"ev": "inject", "peer": p.Name, "what": what, "len": len(raw), "resps": resps, "newToks": toks, "dp": w.dpJSON(), "cmds": t.Cmds, "errs": t.Errs})
-	w.Steps++
+	w.emit(map[string]interface{}{"ev": "inject", "peer": p.Name, "what": what, "len": len(raw), "resps": proj(ds), "newToks": toks, "dp": dp, "cmds": t.Cmds, "errs": t.Errs})
+	w.emit(map[string]interface{}{"ev": "req", "kind": "hb", "peer": p.Name, "req": map[string]interface{}{"seq": pfcpx.V32(uint64(seq))}, "resps": proj(hb),
+		"dp": dp, "cmds": t.Cmds, "errs": t.Errs, "markers": []interface{}{}})
+	w.Steps += 2
 	w.CheckAlive()
 
 	return ds
